@@ -84,6 +84,14 @@ ERROR_CLASSES: dict[str, dict[str, Any]] = {
     "if_without_block": {"scope": "parse", "text": ".if 1 ; no block follows"},
     "for_without_bound": {"scope": "parse", "text": ".for i_zq := 0 {\n}"},
     "stray_closing_brace": {"scope": "parse", "text": "}", "top_only": True},
+    # keywords that only make sense as part of another statement, at statement position
+    # (preceded by a statement of their own: right after an .if block an .else would be legitimate)
+    "bare_else": {"scope": "parse", "text": "inx\n.else"},
+    "dangling_else_block": {"scope": "parse", "text": "inx\n.else {\n    nop\n}"},
+    "else_after_comment": {"scope": "parse", "text": ".if 1 {\n    nop\n}\n; a comment in between\n.else {\n    inx\n}"},
+    "else_after_for": {"scope": "parse", "text": ".for q_zq := 0, 1 {\n    nop\n}\n.else {\n    inx\n}"},
+    "two_else_blocks": {"scope": "parse", "text": ".if 0 {\n    nop\n} else {\n    inx\n} else {\n    iny\n}"},
+    "stray_istruct": {"scope": "parse", "text": ".istruct thing_zq"},
     "undefined_scope_member": {"scope": "asm", "text": ".dl nosuch_zq.member_zq"},
     # the scope exists, the name exists outside it, but it is not a member of the scope
     "outer_symbol_through_scope": {"scope": "asm", "text": "outer_zq = 4\n.scope sc_zq {\n    in_zq:\n    .db 1\n}\n.dw sc_zq.outer_zq", "top_only": True},
